@@ -1,10 +1,16 @@
-"""C15 (dispatcher clause only) -- path-dispatching middleware preserves the
-concatenation of script name and path info while choosing the longest matching mount.
+"""C15 -- URLs keep their meaning between IRI, URI, environ and request (ASCII subset).
 
-middleware.dispatcher.DispatcherMiddleware.__call__ is executed symbolically on a
-PATH_INFO of n solver characters for enumerated mount tables over nested prefixes.
-The IRI/URI and environ round-trip clauses of C15 are outside the claim (stdlib URL,
-IDNA and codec code; see DESIGN.md).
+(3) middleware.dispatcher.DispatcherMiddleware.__call__ is executed symbolically on a
+    PATH_INFO of n solver characters for enumerated mount tables over nested prefixes.
+(1) urls.iri_to_uri / uri_to_iri (with _make_unquote_part's live regexes, the
+    'werkzeug.url_quote' handler and the stdlib urlsplit / quote / unquote / urlunsplit
+    interpreted from their source) are executed on 'http://h/...' URLs whose path, query
+    or fragment contains solver characters (printable ASCII incl. '%' escapes): both
+    directions are idempotent, the round trip is a fixpoint after one step, URIs are ASCII
+    and no reserved delimiter is introduced by un-quoting.
+(2) sansio.utils.get_current_url followed by splitting the URL again recovers root path +
+    path and the query for solver path text (incl. raw '?', '#', '%', space).
+Non-ASCII text, IDNA hosts and the EnvironBuilder/Request objects are outside the claim.
 """
 from __future__ import annotations
 
@@ -15,9 +21,11 @@ BOUNDS = {
     "quick": {"path_info": "<= 6 solver characters over '/', 'a', 'b', '.', '%' and other printable ASCII", "mount tables": 5},
     "thorough": {"path_info": "<= 8 characters"},
 }
-STUBS = ["mounted applications are recorders"]
+STUBS = ["mounted applications are recorders", "urllib.parse.urlsplit: the lru_cache wrapper is bypassed, the wrapped Python function is interpreted",
+         "urllib.parse.quote: per-byte model (differentially tested); unquote: interpreted from the stdlib source / ASCII model in the oracle"]
 ASSUMPTIONS = ["mount tables are enumerated, not solver-quantified"]
-OUTSIDE = ["IRI <-> URI conversion (urlsplit, quote/unquote, IDNA, codecs)", "EnvironBuilder -> Request round trip (latin-1 tunnelling, stdlib URL code)"]
+OUTSIDE = ["non-ASCII characters and IDNA hosts in IRI <-> URI conversion (C-level codecs)", "EnvironBuilder -> Request object round trip (latin-1 tunnelling)",
+           "userinfo / port components", "URL texts longer than the bound"]
 
 TABLES = [
     {"/a": "A"},
@@ -68,9 +76,79 @@ def body_dispatch(I, X, ti=0, n=4, script_name=""):
     return ok, {"app": seen.get("app"), "script": seen.get("script"), "path": seen.get("path")}
 
 
+FORMS = {"free1": ("{}", 1), "free2": ("{}", 2), "escape": ("%{}", 2), "escape-then": ("%2{}", 2), "then-escape": ("{}%2f", 1), "double": ("%25{}", 2)}
+
+
+def body_iri_uri(I, X, comp="path", form="free1"):
+    from werkzeug import urls
+
+    skel, n = FORMS[form]
+    t = X.str("t", n, minlen=n, maxcp=0x7E)
+    X.assume(pall_in(t, [(0x21, 0x7E)]))
+    X.assume(pnone_in(t, [0x23, 0x3F, 0x5B, 0x5D, 0x40, 0x3A, 0x2F]))  # no raw delimiters in the solver part
+    pre, _, post = skel.partition("{}")
+    text = pconcat(pre, t, post)
+    base = {"path": "http://h/a", "query": "http://h/p?q=", "fragment": "http://h/p#"}[comp]
+    x = pconcat(base, text)
+    u1 = I.call(urls.iri_to_uri, (x,))
+    i1 = I.call(urls.uri_to_iri, (u1,))
+    u2 = I.call(urls.iri_to_uri, (i1,))
+    i2 = I.call(urls.uri_to_iri, (u2,))
+    ok = pand(
+        peq(I.call(urls.iri_to_uri, (u1,)), u1),     # IRI -> URI is idempotent
+        peq(I.call(urls.uri_to_iri, (i1,)), i1),     # URI -> IRI is idempotent
+        peq(i2, i1),                                 # the round trip is a fixpoint after one step
+        peq(I.call(urls.iri_to_uri, (i2,)), u2),
+        pall_in(u1, [(0x21, 0x7E)]), pall_in(u2, [(0x21, 0x7E)]),   # URIs are pure ASCII without blanks
+    )
+    # component-specific reserved characters stay quoted: un-quoting never introduces one
+    # (a '/' inside a query or fragment, or a '#' inside the fragment, has no structural meaning)
+    reserved = {"path": ("/", "?", "#"), "query": ("#", "&", "=", "+"), "fragment": ()}[comp]
+    for ch in reserved:
+        ok = pand(ok, i1.count(ch) == x.count(ch), u2.count(ch) == x.count(ch))
+    return ok, {"u1": u1, "i1": i1, "u2": u2}
+
+
+def body_current_url(I, X, n=2, with_query=True):
+    import urllib.parse
+
+    from harness.c03 import punquote
+    from werkzeug.sansio.utils import get_current_url
+
+    p = X.str("path", n, minlen=n, maxcp=0x7E)
+    X.assume(pall_in(p, [(0x20, 0x7E)]))
+    X.assume(pnone_in(p, [0x2F]))
+    path = pconcat("/", p)
+    qs = b"k=v" if with_query else b""
+    url = I.call(get_current_url, ("http", "h", "/r", path, qs))
+    parts = I.call(urllib.parse.urlsplit, (url,))
+    got_path = punquote(parts.path)
+    ok = pand(peq(parts.scheme, "http"), peq(parts.netloc, "h"), peq(got_path, pconcat("/r", path)),
+              peq(parts.query, "k=v" if with_query else ""), peq(parts.fragment, ""))
+    return ok, {"url": url}
+
+
+def make_stubs():
+    from harness.c07 import make_stubs as m
+
+    return m()
+
+
 def obligations(tier, seed):
     out = []
     quick = tier == "quick"
+    for comp in ("path", "query", "fragment"):
+        for form in FORMS:
+            if quick and form in ("free2", "double") and comp != "path":
+                continue
+            out.append({"name": f"iri_uri[{comp},{form}]", "body": "body_iri_uri", "params": {"comp": comp, "form": form},
+                        "opts": {"budget_s": 900 if quick else 3000, "ctx": {"max_cp": 0x7E}}, "witness": form == "escape" and comp == "path"})
+    for wq in (True, False):
+        for n in (range(0, 3) if quick else range(0, 4)):
+            if quick and n == 2 and not wq:
+                continue
+            out.append({"name": f"current_url[n={n},query={wq}]", "body": "body_current_url", "params": {"n": n, "with_query": wq},
+                        "opts": {"budget_s": 900, "ctx": {"max_cp": 0x7E}}, "witness": n == 1 and wq})
     for ti in range(len(TABLES)):
         for sn in ("", "/root"):
             for n in (range(0, 7) if quick else range(0, 9)):
